@@ -46,6 +46,8 @@ type hDecl struct {
 var hDefaults = [][2]string{
 	{"", "true"}, {"", `"dflt"`}, {"0", "7"}, {"0", "1.5"}, {"", `["d1", "d2"]`}, {"", "[7, 8]"}, {"", "[1.5, 2.5]"},
 	{"false", "true"}, {"0", "3"}, {"", "custom-set"}, {"1h0m0s", "2h0m0s"},
+	// 11: a plain custom value with a long rendering (more than 64 characters, some of them multi-byte): shown in full
+	{"https://example.org/a/long/path/that/goes/on/and/on/and/on/and/ends/here", "https://example.org/ünïcödé/path/that/goes/on/and/on/and/on/and/ends/hére"},
 }
 
 type hSwitch struct{ s string }
@@ -234,7 +236,7 @@ func hDeclare(cmd *cli.Cmd, it hItem, asOpt bool) {
 		} else {
 			cmd.Ints(cli.IntsArg{Name: n, EnvVar: e, Desc: d, HideValue: h, Value: v})
 		}
-	case 7, 8, 9, 10:
+	case 7, 8, 9, 10, 11:
 		text := hDefaults[it.Typ][map[bool]int{false: 0, true: 1}[it.NZ]]
 		var val flag.Value
 		switch it.Typ {
